@@ -197,6 +197,7 @@ PROPS = {
                           "method_table_unique", "method_table_none"]] +
                         [("GcpVerif.Proofs.ConfigJson", "GcpVerif.Config." + n) for n in
                          ["parse_render", "parse_render_pool", "parse_render_method", "keysOk_of_sublist"]] +
+                        [("GcpVerif.Proofs.Widths", "GcpVerif.Widths." + n) for n in ["widened_compare", "narrowed_compare_wrong", "watermark_reads_widened"]] +
                         [("GcpVerif.Proofs.Ties", "GcpVerif.Ties." + n) for n in
                          ["config_not_mutated_not_aliased", "first_update_wins_guard", "pool_defaults_tie"]],
             "leanchecker": ["GcpVerif.Proofs.Config", "GcpVerif.Proofs.ConfigJson", "GcpVerif.Proofs.Ties"],
